@@ -26,13 +26,29 @@ def _real_env():
     from plinio.cost.pattern import conv_dw_constraint, conv_3_constraint
     from plinio.cost.cost_spec import cost_spec_zero_fn, cost_spec_fail_fn
 
+    import functools
+
     def usr_constraint(spec):
         return bool(spec.get("usr_flag", False))
 
-    types = {"A": nn.Conv2d, "B": nn.Linear}
-    constr = {"U": None, "dw": conv_dw_constraint, "k3": conv_3_constraint, "usr": usr_constraint}
+    def _usr_with(spec, key):
+        return bool(spec.get(key, False))
 
-    def layer_specs(sat):
+    class _UsrCallable:
+        def __call__(self, spec):
+            return bool(spec.get("usr_flag", False))
+
+        def method(self, spec):
+            return bool(spec.get("usr_flag", False))
+
+    # the user's constraint may be any callable: function, lambda, functools.partial, callable object, bound method
+    USR_KINDS = [usr_constraint, (lambda spec: bool(spec.get("usr_flag", False))),
+                 functools.partial(_usr_with, key="usr_flag"), _UsrCallable(), _UsrCallable().method]
+
+    types = {"A": nn.Conv2d, "B": nn.Linear, "C": nn.Conv1d}
+    constr0 = {"U": None, "dw": conv_dw_constraint, "k3": conv_3_constraint, "usr": usr_constraint}
+
+    def layer_specs(sat, ty="A"):
         """Several layer descriptions that satisfy exactly the constraints in `sat` by the DOCUMENTED meaning of the
         built-in constraints (depthwise: in = out = groups; 3x3: all kernel dims 3) - including the edge cases
         in_channels = groups != out_channels (1-channel input, grouped convs)."""
@@ -40,12 +56,17 @@ def _real_env():
             chans = [(6, 6, 6), (1, 1, 1), (16, 16, 16)]
         else:
             chans = [(6, 8, 1), (1, 16, 1), (4, 8, 4), (8, 4, 4), (3, 3, 1), (6, 6, 2)]
-        kers = [(3, 3)] if "k3" in sat else [(5, 3), (3, 5), (1, 1)]
+        if ty == "C":      # Conv1d: one-element kernel tuples
+            kers = [(3,)] if "k3" in sat else [(5,), (1,), (2,)]
+        else:
+            kers = [(3, 3)] if "k3" in sat else [(5, 3), (3, 5), (1, 1)]
         return [{"in_channels": ci, "out_channels": co, "groups": g, "kernel_size": k, "usr_flag": "usr" in sat}
                 for (ci, co, g) in chans for k in kers]
 
-    def execute(dflt, events):
+    def execute(dflt, events, usr_kind=0):
         """events: list of ('reg', ty, p) / ('get', ty, sat). Returns the trace."""
+        constr = dict(constr0)
+        constr["usr"] = USR_KINDS[usr_kind % len(USR_KINDS)]
         cs = CostSpec(shared=True, default_behavior=dflt)
         fns = {}
         out = []
@@ -60,7 +81,7 @@ def _real_env():
                 out.append({"a": "reg", "ty": ty, "p": p})
             else:
                 _, ty, sat = ev[:3]
-                cands = layer_specs(sat)
+                cands = layer_specs(sat, ty)
                 sp = cands[ev[3] % len(cands)] if len(ev) > 3 else cands[0]
                 try:
                     f = cs[(types[ty], sp)]
@@ -159,7 +180,7 @@ def run(tier: str, seed: int, replay=None) -> int:
     if replay:
         import json
         sc = json.load(open(replay))["scenario"]
-        tr = execute(sc["dflt"], [tuple(e) for e in sc["events"]])
+        tr = execute(sc["dflt"], [tuple(e) for e in sc["events"]], sc.get("usr_kind", 0))
         R.validate("CostLookupTrace", "CostLookupTrace", [tr], [sc])
         return R.finish()
 
@@ -179,15 +200,17 @@ def run(tier: str, seed: int, replay=None) -> int:
         h = len(traces)
         events = [("reg", ty, p) for ty, p in st["reg"]] + \
                  [("get", ty, sat, h + j) for ty, sat in ALL_QUERIES for j in (0, 7)]
-        traces.append(execute(st["dflt"], events))
-        scen.append({"kind": "state", "dflt": st["dflt"], "events": [list(e) for e in events], "n_reg": len(st["reg"])})
+        traces.append(execute(st["dflt"], events, h))
+        scen.append({"kind": "state", "dflt": st["dflt"], "events": [list(e) for e in events], "n_reg": len(st["reg"]),
+                     "usr_kind": h % 5})
     R.sample({"scenario": {"dflt": scen[-1]["dflt"], "registrations": [e for e in scen[-1]["events"] if e[0] == "reg"]},
               "observed": traces[-1]["ev"][-3:]})
 
     # 3. code -> spec: random interleavings (lookups between registrations must not disturb anything)
     rng = random.Random(seed)
     n_rand = 400 if tier == "quick" else 6000
-    pairs = [(ty, p) for ty in TYPES for p in ["U"] + CONSTR]
+    pairs = [(ty, p) for ty in TYPES + ["C"] for p in ["U"] + CONSTR]
+    queries3 = ALL_QUERIES + [("C", list(s_)) for r_ in range(4) for s_ in itertools.combinations(CONSTR, r_)]
     for _ in range(n_rand):
         k = rng.randint(1, 8)
         regs = rng.sample(pairs, k)
@@ -195,11 +218,12 @@ def run(tier: str, seed: int, replay=None) -> int:
         for r in regs:
             events.append(("reg",) + r)
             for _ in range(rng.randint(0, 3)):
-                ty, sat = rng.choice(ALL_QUERIES)
+                ty, sat = rng.choice(queries3)
                 events.append(("get", ty, sat, rng.randrange(1000)))
         dflt = rng.choice(["zero", "fail"])
-        traces.append(execute(dflt, events))
-        scen.append({"kind": "random", "dflt": dflt, "events": [list(e) for e in events], "n_reg": k})
+        uk = rng.randrange(5)
+        traces.append(execute(dflt, events, uk))
+        scen.append({"kind": "random", "dflt": dflt, "events": [list(e) for e in events], "n_reg": k, "usr_kind": uk})
     R.sample({"scenario": scen[-1], "observed": traces[-1]["ev"][:6]})
 
     bt, bs = _builtin_traces()
